@@ -503,6 +503,8 @@ void scan_deps(const std::string& orig_portname, std::string cur_portname,
                 {
                     if(*enabled_by==',')
                         ++enabled_by;
+                    if(!*enabled_by) // behind the trailing ',' of rDepends
+                        break;
                     std::string abs = rel2abs(enabled_by, cur_portname);
                     auto itr = message_map.find(abs);
                     if(itr != message_map.end())  // port is in the savefile
